@@ -76,6 +76,16 @@ def c19_stages(tier):
     return [vfsx_stage("C19", 1_600 if tier == "quick" else 60_000, timeout=2400, crash_is_violation=True)]
 
 
+def ptfs_stage(prop, cases, name="native", kind="native", **kw):
+    d = {"name": name, "kind": kind, "pkg": "ptfs", "bin": "ptfs", "prop": prop, "cases": cases, "core": kind == "native"}
+    d.update(kw)
+    return d
+
+
+def c18_stages(tier):
+    return [ptfs_stage("C18", 3_000 if tier == "quick" else 120_000, timeout=2400, crash_is_violation=True)]
+
+
 def c12_stages(tier):
     if tier == "quick":
         return [wire_stage("C12", 200_000), wire_stage("C12", 160, name="miri", kind="miri", shards=16, timeout=600)]
@@ -196,6 +206,23 @@ PROPS = {
         "rule": "case = one history (2-9 steps, optionally after a 10-260 cycle allocator burst); evaluations = save/restore points; distinct = (format, fresh-Vfs "
                 "kind, initialised?, global mapping?, number of mounts, step kind).",
         "assumptions": ["twin NumFs backends are deterministic functions of their id"],
+    },
+    "C18": {
+        "level": "exploration",
+        "stages": c18_stages,
+        "floor": 1000,
+        "technique": "runtime monitoring: invariant monitor (stat of every pre-existing file after every request) on a size-sealed passthrough export driven by "
+                     "raw hostile requests, plus differential against an unsealed twin instance on a twin directory",
+        "level_text": "Random raw requests (OPEN/CREATE with every access mode x O_TRUNC/O_APPEND/O_CREAT/O_NONBLOCK, WRITE at offsets and lengths around each "
+                      "size boundary with per-request flags toggling O_APPEND, SETATTR(SIZE) with and without handle, FALLOCATE in valid and invalid modes, READ, "
+                      "RELEASE) against files of sizes 0/1/100/4096/5000, with and without no_open / writeback. After every request each pre-existing file is "
+                      "stat'ed (witness = the request after which a size differs). The same requests go to an unsealed twin: what changes a size there must "
+                      "have been refused here; what stays within the size must give the same reply and content.",
+        "level_note": "Equivalence with the unsealed twin is only demanded for request classes that cannot change a size (reads, in-range non-append writes, "
+                      "non-truncating opens); truncating opens and fallocate modes may be refused conservatively.",
+        "rule": "case = one history of 20-80 requests; evaluations = requests; distinct = (request kind, access/trunc/append bits, offset vs size, fits/beyond, "
+                "sealed errno, unsealed errno, no_open).",
+        "assumptions": ["ext4 scratch directory under /verif/scratch", "runs as root"],
     },
     "C12": {
         "level": "exploration",
